@@ -158,7 +158,7 @@ int bs_ptr_set(const struct bytestr *m, ssize_t *pos, size_t n, int add)
 	return 0;
 }
 
-/* The searches use the C library's memmem/memchr (an implementation independent
+/* The searches work on the flat array with memchr/memcmp/memmem (independent
  * of libevent's chain walk) so that the battery stays cheap. */
 ssize_t bs_search_range(const struct bytestr *m, const void *what, size_t len, ssize_t start, ssize_t end)
 {
@@ -168,8 +168,12 @@ ssize_t bs_search_range(const struct bytestr *m, const void *what, size_t len, s
 	if (len == 0) return (ssize_t)s;          /* returns `start` (or 0) unchanged */
 	if (e > m->len) e = m->len;
 	if (s > e || e - s < len) return -1;
-	p = memmem(m->d + s, e - s, what, len);
-	return p ? (ssize_t)(p - m->d) : -1;
+	/* candidates by first byte (memchr), then compare: the patterns start with rare bytes */
+	for (p = m->d + s; (p = memchr(p, *(const unsigned char *)what, (size_t)(m->d + e - p) - (len - 1))) != NULL; p++) {
+		if (!memcmp(p, what, len)) return (ssize_t)(p - m->d);
+		if ((size_t)(m->d + e - (p + 1)) < len) break;
+	}
+	return -1;
 }
 
 static int is_crlf(unsigned char c) { return c == '\r' || c == '\n'; }
